@@ -13,7 +13,8 @@ subscriptions of deregistered consumers, exactly those, dropped at attendance); 
 (validation: acceptance only after all seven validators held, each failure refused with its own result code naming the
 applicant, no other refusing path, the validators' own predicates, storing only after validation returned None and
 storing the validated request and callback); the reactive trigger (reactive: every add inserts once through the base
-service, returns its index and attends subscriptions after the insert).
+service, returns its index and attends subscriptions after the insert); the LDM clock is the wall clock truncated to whole
+seconds, and SubscriptionInfo - the key of the bookkeeping - compares and hashes over all of its fields.
 Does not decide cadence as timing, nor isolation between subscriptions over histories; expressions are compared as
 written (a call spelled twice denotes one value).
 
@@ -388,6 +389,34 @@ def same(a, b) -> bool:
 # --------------------------------------------------------------------------------------------
 # the rule
 # --------------------------------------------------------------------------------------------
+def check_key_identity(ctx, P) -> None:
+    """`last_checked_subscriptions_time` is a dictionary keyed by SubscriptionInfo, and `subscriptions` is searched with `in` /
+    `remove`: two live subscriptions are two keys only if equality and hash cover EVERY field (request and callback).  A field
+    excluded from the comparison (`field(compare=False)`, a hand-written __eq__ over a subset) makes two consumers with identical
+    requests share one time stamp - the second callback is never due."""
+    ci = P.cls(f"{LDM}.ldm_classes.SubscriptionInfo")
+    declared = [n for n, (ann, _) in ci.fields.items() if ann is not None]
+    excluded = []
+    for n, (ann, dv) in ci.fields.items():
+        if isinstance(dv, ast.Call) and (dotted(dv.func) or "").split(".")[-1] == "field":
+            for kw in dv.keywords:
+                if kw.arg in ("compare", "hash") and isinstance(kw.value, ast.Constant) and kw.value.value is False:
+                    excluded.append(f"{n} ({kw.arg}=False)")
+    eq = ci.methods.get("__eq__")
+    if eq is not None:
+        me = eq.params[0] if eq.params else "self"
+        read = {x.attr for x in ast.walk(eq.node) if isinstance(x, ast.Attribute) and isinstance(x.value, ast.Name) and x.value.id == me}
+        excluded += [f"{n} (not compared by __eq__)" for n in declared if n not in read]
+    hs = ci.methods.get("__hash__")
+    value_eq = ci.dataclass or eq is not None
+    hashable = (ci.dataclass and ci.frozen) or hs is not None or (eq is None and not ci.dataclass)
+    ok = value_eq and hashable and not excluded and len(declared) >= 2
+    ctx.ob("C14.bookkeeping", ci.qual[10:], "subscription-key-covers-every-field", ok,
+           "SubscriptionInfo compares and hashes over all of its fields (request and callback)" if ok else
+           f"SubscriptionInfo does not compare / hash over all of its fields: {excluded or ['not a hashable value class']} - subscriptions that differ only "
+           "there are one key of last_checked_subscriptions_time, so only the first of them is ever notified", f"{ci.module.rel}:{ci.node.lineno}")
+
+
 def check_clock(ctx, P) -> None:
     """The cadence is stated at the LDM's one-second clock: `TimestampIts.initialize_with_utc_timestamp_seconds()` without an
     argument reads the wall clock truncated to whole seconds.  Every TimeService.time() read in it is the argument of int() /
@@ -436,6 +465,7 @@ def run(ctx):
     check_unsubscribe_if(ctx, P, X, sv, if4)
     check_reactive(ctx, P, X)
     check_clock(ctx, P)
+    check_key_identity(ctx, P)
     ctx.floor("C14.notify-guards", 4)
     ctx.floor("C14.notify-data", 5)
     ctx.floor("C14.bookkeeping", 7)
